@@ -148,7 +148,7 @@ pub fn check(c: &Case) -> Verdict {
         }
     }
     if !extra_segs.is_empty() {
-        plan.files.push(vpmodel::datadir::PFile { number: 1, name: vpmodel::datadir::blk_name(1, 5), segs: extra_segs });
+        plan.files.push(vpmodel::datadir::PFile { number: 1, name: vpmodel::datadir::blk_name(1, 5), segs: extra_segs, linked: false });
     }
     let w = infra!(World::create("c04", &mut plan));
     let o = RunOpts::new(built.coin, c.cb);
